@@ -70,3 +70,8 @@ Theorem C01_code_lookup_before_load :
   lookup_recorded Gen.Anycache.Cache_get_cached_entry_inner = true /\
   load_entry_wf Gen.Anycache.Cache_load_entry = true.
 Proof. exact (conj (proj1 (proj2 (proj2 recording_call_sites))) (proj1 (proj2 (proj2 (proj2 recording_call_sites))))). Qed.
+
+(* the slow path of a load hands its entry to the map's insert and does nothing else with the map:
+   the loser of a creation race is dropped by insert, it never overwrites the winner *)
+Theorem C01_code_add_asset_loads_then_inserts : add_asset_wf Gen.Anycache.RawCache_add_asset = true.
+Proof. exact add_asset_loads_then_inserts. Qed.
